@@ -245,9 +245,11 @@ func structHash(vals ...any) uint64 {
 
 // ---- reachable pointer sets (O4 structural accelerator) -------------------------------------
 
-// reach collects the addresses of non-zero-size structs reached through pointers and of
-// non-empty slice backing arrays.
-func reach(x any, out map[uintptr]struct{}) {
+type extent struct{ lo, hi uintptr }
+
+// reach collects the memory extents of non-zero-size structs reached through pointers and
+// of slice backing arrays (up to their capacity: `append` may write there).
+func reach(x any, out map[extent]struct{}) {
 	if x == nil {
 		return
 	}
@@ -268,8 +270,8 @@ func reach(x any, out map[uintptr]struct{}) {
 				return
 			}
 			seen[k] = true
-			if v.Type().Elem().Size() > 0 {
-				out[v.Pointer()] = struct{}{}
+			if sz := v.Type().Elem().Size(); sz > 0 {
+				out[extent{v.Pointer(), v.Pointer() + sz}] = struct{}{}
 			}
 			rec(v.Elem())
 		case reflect.Struct:
@@ -277,11 +279,11 @@ func reach(x any, out map[uintptr]struct{}) {
 				rec(v.Field(i))
 			}
 		case reflect.Slice:
-			if v.Len() == 0 {
+			if v.Cap() == 0 {
 				return
 			}
-			if v.Type().Elem().Size() > 0 {
-				out[v.Pointer()] = struct{}{}
+			if sz := v.Type().Elem().Size(); sz > 0 {
+				out[extent{v.Pointer(), v.Pointer() + sz*uintptr(v.Cap())}] = struct{}{}
 			}
 			switch v.Type().Elem().Kind() {
 			case reflect.Pointer, reflect.Interface, reflect.Struct, reflect.Slice, reflect.Array, reflect.Map:
@@ -304,6 +306,9 @@ func reach(x any, out map[uintptr]struct{}) {
 }
 
 // ---- scribble (fault: the caller rewrites what it was given) ----------------------------------
+
+// spareWrites counts writes into the spare capacity of returned slices (reach probe).
+var spareWrites int64
 
 const scribbleStr = "☠scribbled☠"
 
@@ -349,6 +354,16 @@ func scribble(x any) (writes int) {
 		case reflect.Slice:
 			for i := 0; i < v.Len(); i++ {
 				rec(v.Index(i))
+			}
+			// what `append(s, x)` within capacity does: write behind the end
+			if c := v.Cap(); c > v.Len() && !v.IsNil() {
+				ext := v.Slice3(0, v.Len(), c).Slice(0, c)
+				zero := reflect.Zero(v.Type().Elem())
+				for i := v.Len(); i < c && i < v.Len()+64; i++ {
+					ext.Index(i).Set(zero)
+					spareWrites++
+					writes++
+				}
 			}
 			if v.CanSet() {
 				v.Set(reflect.Zero(v.Type()))
